@@ -141,6 +141,7 @@ class Run:
         self._tls = threading.local()
         self._log = None
         self._seq = 0
+        self.pid = os.getpid()   # forked pool workers see a different os.getpid()
         if workdir:
             os.makedirs(workdir, exist_ok=True)
 
@@ -205,6 +206,15 @@ class Run:
         self.counters[f"{monitor}|error"] += 1
         if len(self.errors) < 5:
             self.errors.append({"monitor": monitor, "traceback": tb[-3000:], "case": jsonable(self.case)})
+        if os.getpid() != self.pid:
+            # inside a forked pool worker: this object dies with the worker, so
+            # hand the error to the parent through the event log
+            self.log_event({"ev": "monitor_error", "monitor": monitor, "traceback": tb[-3000:]})
+
+    def adopt_worker_error(self, rec):
+        self.counters[f"{rec.get('monitor')}|error"] += 1
+        if len(self.errors) < 5:
+            self.errors.append({"monitor": rec.get("monitor"), "traceback": rec.get("traceback", ""), "case": jsonable(self.case)})
 
     # -- cases
     def begin_case(self, workload, index, cls=None, **info):
